@@ -6,15 +6,17 @@ import KavaVerif.Model.Vesting
   c20.cal    now y m d hour months lens endDays endSecs
              Go's `time` decomposition of the block time, `GetPeriodLength(now, months_i)` for a list of
              months ("P" = panic) and Go's decomposition (day of month, second of day) of `now + len_i`.
-  c20.sched  now start end ov dv periods amt length => start' end' ov' dv' periods' samples
+  c20.sched  now start end ov dv periods amt length => start' end' ov' dv' periods' samples valid
              the unexported `addCoinsToVestingSchedule` (hook) on a stored periodic vesting account;
              samples `t:V:V':L:L'` = the SDK account's own GetVestingCoins / LockedCoins before/after at `t`.
   c20.send   now kind blocked modBal bal start end ov dv periods amt length =>
-               result kind' modBal' bal' start' end' ov' dv' periods' samples raw
+               result kind' modBal' bal' start' end' ov' dv' periods' samples raw valid
              `SendTimeLockedCoinsToAccount` on the real app; samples `t:V:V':L:L':S:S'` add the real bank
              `LockedCoins` / `SpendableCoins`; raw = `modBal|bal|acctUnchanged` read from the keeper's own
              context right after a refusal (before any rollback).
 
+  `samples` is the single word `panic` when an observation call into the SDK panicked; `valid` is the real
+  post account's own `Validate()` (1/0, `-` when there is none).
   Coins are comma separated amounts over the harness denoms (index = denom); periods are
   `len:coins|len:coins|…` or `-`.  Every handler (1) runs the model on the observed input and compares
   (MISMATCH) and (2) evaluates the C20 predicates on the implementation's own observation (PREDFAIL).
@@ -129,9 +131,10 @@ def verdict (cmp pred : String) : String := if pred != "ok" then pred else cmp
 /-! ### c20.sched -/
 
 def handleSched : Handler
-  | [now, start, endT, ov, dv, periods, amt, length, _, start', endT', ov', dv', periods', samples] =>
+  | [now, start, endT, ov, dv, periods, amt, length, _, start', endT', ov', dv', periods', samples, valid] =>
+    let obsPanic := samples.trimAscii.toString == "panic"
     match int? now, pva? start endT ov dv periods, coins? amt, int? length,
-          pva? start' endT' ov' dv' periods', samples? samples with
+          pva? start' endT' ov' dv' periods', (if obsPanic then some [] else samples? samples) with
     | some now, some a, some amt, some length, some b, some smp =>
       -- (1) model vs implementation
       let m := addCoins now a amt length
@@ -142,8 +145,10 @@ def handleSched : Handler
       match wfTag b with
       | some tag => predfail "C20_wellformed_preserved" tag
       | none =>
-        if !coinsEq b.ov (Coins.add a.ov amt) then predfail "C20_wellformed_preserved" "original-vesting-not-plus-amt"
+        if valid == "0" then predfail "C20_wellformed_preserved" "validate-fails"
+        else if !coinsEq b.ov (Coins.add a.ov amt) then predfail "C20_wellformed_preserved" "original-vesting-not-plus-amt"
         else if !coinsEq b.dv a.dv then predfail "C20_wellformed_preserved" "delegated-vesting-changed"
+        else if obsPanic then predfail "C20_wellformed_preserved" "observation-panics"
         else match unlockPred now length amt a.dv false smp with
           | some r => r
           | none => "ok"
@@ -179,7 +184,8 @@ def showAcct (k : Acct) : String :=
 
 def handleSend : Handler
   | [now, kind, blocked, modBal, bal, start, endT, ov, dv, periods, amt, length, _,
-     result, kind', modBal', bal', start', endT', ov', dv', periods', samples, raw] =>
+     result, kind', modBal', bal', start', endT', ov', dv', periods', samples, raw, valid] =>
+    let obsPanic := samples.trimAscii.toString == "panic"
     match int? now, acct? kind start endT ov dv periods, bool? blocked, coins? modBal, coins? bal,
           coins? amt, int? length with
     | some now, some acct, some blocked, some modBal, some bal, some amt, some length =>
@@ -190,7 +196,8 @@ def handleSend : Handler
       let sufficient := denoms.all fun d => amt d ≤ modBal d
       match result with
       | "ok" =>
-        match acct? kind' start' endT' ov' dv' periods', coins? modBal', coins? bal', samples? samples with
+        match acct? kind' start' endT' ov' dv' periods', coins? modBal', coins? bal',
+              (if obsPanic then some [] else samples? samples) with
         | some acct', some modBal', some bal', some smp =>
           -- (1) model vs implementation
           let cmp := match res with
@@ -223,9 +230,11 @@ def handleSend : Handler
               | none =>
                 let ovPre : Coins := match acct with | .periodic a => a.ov | _ => Coins.zero
                 let dvPre : Coins := match acct with | .periodic a => a.dv | _ => Coins.zero
-                if !coinsEq b.ov (Coins.add ovPre amt) then
+                if valid == "0" then predfail "C20_wellformed_preserved" "validate-fails"
+                else if !coinsEq b.ov (Coins.add ovPre amt) then
                   predfail "C20_wellformed_preserved" "original-vesting-not-plus-amt"
                 else if !coinsEq b.dv dvPre then predfail "C20_wellformed_preserved" "delegated-vesting-changed"
+                else if obsPanic then predfail "C20_wellformed_preserved" "observation-panics"
                 else match unlockPred now length amt dvPre true smp with
                   | some r => r
                   | none => "ok"
